@@ -1,5 +1,7 @@
 import Driver.DCommon
 import Lumina.Model.RoundTrip
+import Lumina.Model.RoundTripExt
+import Lumina.Model.Commitment
 import Lumina.Spec.C46
 
 open Lumina.Util Lumina.Model.Nmt Lumina.Model.Eds Lumina.Model.Decoders Lumina.Model.RoundTrip
@@ -111,9 +113,136 @@ def parseRanges (s : String) : Option (List (Nat × Nat)) :=
       | _, _ => none
     | _ => none)
 
+/-! strengthening round: Blob and ExtendedHeader conversion layers (`Model/RoundTripExt.lean`) -/
+
+/-- `Commitment::from_blob` = C12's model with SHA-256 -/
+def commitC12 (ns data : Bytes) (sv : Nat) (signer : Option Bytes) (av : Nat) : Except Commitment.CErr Bytes :=
+  Commitment.fromBlob Merkle.sha256Fns Sha256.hash ns data sv signer av
+
+def optHex (s : String) : Option (Option Bytes) :=
+  if s == "-" then some none else (fromHex s).map some
+
+def showRawBlob (r : RawBlob) : String :=
+  s!"nsid={toHexOrDash r.namespaceId};nsver={r.namespaceVersion};data={toHexOrDash r.data};sv={r.shareVersion};signer={toHexOrDash r.signer}"
+
+def blobErrKind : BlobErr Commitment.CErr → String
+  | .ns _ => "ns"
+  | .shareVersionRange => "share-version"
+  | .commitment (.blob (.unsupportedShareVersion _)) => "share-version"
+  | .commitment (.blob .signerNotSupported) => "signer-not-supported"
+  | .commitment (.blob .missingSigner) => "missing-signer"
+  | .commitment _ => "other"
+
+def showIndex : Option Nat → String
+  | none => "none"
+  | some i => toString i
+
+/-- value → RawBlob → `Blob::from_raw` (prost itself is the identity at this level) -/
+def blobConvFlag (b : BlobV Bytes) (av : Nat) : String :=
+  match blobFromRaw commitC12 (blobToRaw b) av with
+  | .ok q => if q = b then "same" else "diff"
+  | .error _ => "err"
+
+def blobJsonFlag (b : BlobV Bytes) : String :=
+  match blobToJson b with
+  | none => "err"
+  | some j =>
+    match blobFromJson j with
+    | .ok q => if q = b then "same" else "diff"
+    | .error _ => "err"
+
+def b64Arg (s : String) : List Char := if s == "-" then [] else s.toList
+
+def ehErrKind : EhErr → String
+  | .missingHeader => "MissingHeader"
+  | .missingCommit => "MissingCommit"
+  | .missingValidatorSet => "MissingValidatorSet"
+  | .missingDah => "MissingDah"
+  | _ => "other"
+
+/-- the third-party conversions as oracles: a raw message is the bit "it converts" -/
+def oracleConv : TmConv Unit Unit Unit Bool Bool Bool :=
+  { hTo := fun _ => true, hFrom := fun b => if b then some () else none,
+    cTo := fun _ => true, cFrom := fun b => if b then some () else none,
+    vTo := fun _ => true, vFrom := fun b => if b then some () else none }
+
+def oracleMsg (s : String) : Option (Option Bool) :=
+  if s == "none" then some none else if s == "ok" then some (some true) else if s == "err" then some (some false) else none
+
+def stepExt (ws : List String) : Option String :=
+  match ws with
+  | "blobv" :: _ =>
+    some <|
+    match hexArg? ws "ns", hexArg? ws "data", (arg? ws "signer").bind optHex, arg? ws "index", natArg? ws "av" with
+    | some nsb, some data, some signer, some idx, some av =>
+      match Namespace.fromRaw nsb with
+      | .error _ => "bad-op"
+      | .ok ns =>
+        -- `AccAddress::try_from(&bytes[..]).ok()`: anything but 20 bytes is no signer
+        let signer := signer.bind signerOfRaw
+        let sv := if signer.isNone then 0 else 1
+        let index? : Option (Option Nat) := if idx == "none" then some none else idx.toNat?.map some
+        match index? with
+        | none => "bad-op"
+        | some index =>
+          match commitC12 ns data sv signer av with
+          | .error _ => "err-decode"
+          | .ok c =>
+            let b : BlobV Bytes := ⟨ns, data, sv, c, index, signer⟩
+            let conv := blobConvFlag b av
+            s!"ok raw={showRawBlob (blobToRaw b)} commit={toHex c} conv={conv} pb={conv} json={blobJsonFlag b}"
+    | _, _, _, _, _ => "bad-op"
+  | "blobraw" :: _ =>
+    some <|
+    match natArg? ws "nsver", hexArg? ws "nsid", hexArg? ws "data", natArg? ws "sv", hexArg? ws "signer", natArg? ws "av" with
+    | some nv, some nid, some data, some sv, some signer, some av =>
+      match blobFromRaw commitC12 ⟨nid, nv, data, sv, signer⟩ av with
+      | .error e => s!"err-decode kind={blobErrKind e}"
+      | .ok b =>
+        s!"ok raw={showRawBlob (blobToRaw b)} commit={toHex b.commitment} index={showIndex b.index} pb={blobConvFlag b av} json={blobJsonFlag b}"
+    | _, _, _, _, _, _ => "bad-op"
+  | "blobjson" :: _ =>
+    some <|
+    match arg? ws "ns", arg? ws "data", natArg? ws "sv", arg? ws "commit", arg? ws "index", arg? ws "signer" with
+    | some ns, some data, some sv, some c, some idx, some signer =>
+      let index? : Option (Option Int) := if idx == "absent" then some none else idx.toInt?.map some
+      let signer : Option (List Char) := if signer == "absent" || signer == "null" then none else some (b64Arg signer)
+      match index? with
+      | none => "bad-op"
+      | some index =>
+        match blobFromJson ⟨b64Arg ns, b64Arg data, sv, b64Arg c, index, signer⟩ with
+        | .error _ => "err-decode"
+        | .ok b =>
+          let sg := match b.signer with
+            | some x => toHexOrDash x
+            | none => "-"
+          s!"ok ns={toHex b.ns} data={toHexOrDash b.data} sv={b.shareVersion} commit={toHexOrDash b.commitment} index={showIndex b.index} signer={sg} json={blobJsonFlag b}"
+    | _, _, _, _, _, _ => "bad-op"
+  | "ehraw" :: _ =>
+    some <|
+    match (arg? ws "h").bind oracleMsg, (arg? ws "c").bind oracleMsg, (arg? ws "v").bind oracleMsg, arg? ws "d",
+          natArg? ws "valid" with
+    | some h, some c, some v, some d, some valid =>
+      let rd? : Option (Option RawDah) :=
+        if d == "none" then some none
+        else match hexListArg? ws "rows", hexListArg? ws "cols" with
+          | some rows, some cols => some (some ⟨rows, cols⟩)
+          | _, _ => none
+      match rd? with
+      | none => "bad-op"
+      | some rd =>
+        match ehFromRaw oracleConv (fun _ => valid == 1) ⟨h, c, v, rd⟩ with
+        | .ok _ => "ok"
+        | .error e => s!"err-decode kind={ehErrKind e}"
+    | _, _, _, _, _ => "bad-op"
+  | _ => none
+
 def step (_ : Unit) (line : String) : Unit × String :=
   let ws := words line
   let out : String :=
+    match stepExt ws with
+    | some r => r
+    | none =>
     match ws with
     | "reset" :: _ => "ok"
     | "ns" :: _ =>
@@ -256,6 +385,8 @@ def spec (_ : Unit) (op : String) (obs : String) : String :=
           s!"specfail C46/nsproof-absence-without-leaf the {opn} forms cannot carry an absence proof without a leaf"
         else if opn == "nmtproof" && ign == some 0 then
           "specfail C46/nmtproof-ignore-max-ns-not-on-wire NMTProof has no is_max_namespace_ignored field"
+        else if opn == "blobv" && (arg? ws "index").getD "none" != "none" && !bad.contains "json" then
+          "specfail C46/blob-index-not-on-wire BlobProto has no index field: a blob retrieved from chain comes back from the protobuf form without its index"
         else s!"specfail C46/{opn}-{"-".intercalate bad} encode -> decode did not give back an equal value"
   | _, _ => "specfail C46/unparsed"
 
